@@ -22,22 +22,23 @@ Local Open Scope N_scope.
 
 (* ---- (1) decoding: every DW_CFA opcode form, both vendors ---- *)
 
-(* unconditional for the 24 forms whose operands are unsigned (ULEB128, fixed, address, block) *)
-Theorem insn_decode_unsigned : forall dbg be asize aarch64 off w rest,
-  valid_asize asize = true -> wire_ok asize w = true -> unsigned_wire w = true ->
+(* enc_wire: the spec encoder of every wire form (high-2-bit forms, extended forms, GNU args_size,
+   AArch64 negate_ra_state); wire_ok: operands in range; decode_expect: the instruction the form denotes,
+   except that negate_ra_state is UnknownCallFrameInstruction unless the vendor is AArch64.
+   LEB128 operands are written by the spec encoders enc_uleb / enc_sleb and read by the model of
+   leb128::read::{unsigned,signed}. *)
+Theorem insn_decode : forall dbg be asize aarch64 off w rest,
+  valid_asize asize = true -> wire_ok asize w = true ->
   parse_insn dbg be asize aarch64 off (enc_wire be asize w ++ rest) = decode_expect aarch64 off w rest.
-Proof. exact insn_decode_unsigned_thm. Qed.
+Proof. exact insn_decode_thm. Qed.
 
-(* FULL STATEMENT (all 28 forms): the same without [unsigned_wire w = true].
-   insn_decode_partial proves it under the single hypothesis that the model's signed-LEB128 reader reads
-   back the spec encoder [enc_sleb] (the C09 codec property for SLEB128, which belongs to Proofs/LebProofs.v);
-   what is missing here is only that lemma. *)
-Theorem insn_decode_partial : forall dbg,
-  (forall z, in_i64 z = true -> sleb_enc dbg (enc_sleb z) z) ->
-  forall be asize aarch64 off w rest,
-    valid_asize asize = true -> wire_ok asize w = true ->
-    parse_insn dbg be asize aarch64 off (enc_wire be asize w ++ rest) = decode_expect aarch64 off w rest.
-Proof. exact insn_decode_signed_hyp. Qed.
+(* the LEB128 operand codecs used above, for the record *)
+Theorem uleb_operand_roundtrip : forall dbg v rest,
+  v < two64 -> read_uleb128 dbg (enc_uleb v ++ rest) = Ok (v, rest).
+Proof. exact enc_uleb_read. Qed.
+Theorem sleb_operand_roundtrip : forall dbg z rest,
+  in_i64 z = true -> read_sleb128 dbg (enc_sleb z ++ rest) = Ok (z, rest).
+Proof. exact enc_sleb_read. Qed.
 
 (* ---- (2) shape of the rows, for ALL instruction byte strings ---- *)
 
@@ -150,12 +151,15 @@ Example rule_limit_exact :
 Proof. vm_compute. repeat split. Qed.
 
 Example decode_hypotheses_hold :
-  wire_ok 8 (WExpression 65535 [x01; x02]) = true /\ unsigned_wire (WExpression 65535 [x01; x02]) = true /\
+  wire_ok 8 (WExpression 65535 [x01; x02]) = true /\
   wire_ok 8 (WDefCfaSf 7 (-9223372036854775808)) = true /\
-  (forall rest, read_sleb128 true (enc_sleb (-9223372036854775808) ++ rest) = Ok ((-9223372036854775808)%Z, rest)).
+  wire_ok 1 (WSetLoc 255) = true /\ wire_ok 1 (WSetLoc 256) = false.
 Proof. repeat split. Qed.
 
 (* statement pins *)
+Check insn_decode : forall dbg be asize aarch64 off w rest,
+  valid_asize asize = true -> wire_ok asize w = true ->
+  parse_insn dbg be asize aarch64 off (enc_wire be asize w ++ rest) = decode_expect aarch64 off w rest.
 Check rows_shape : forall dbg caps f cx,
   shape (f_init f) (end_address f)
         (map mspan (fst (fst (fde_rows dbg caps f cx)))) (snd (fst (fde_rows dbg caps f cx))).
